@@ -13,7 +13,7 @@ HARNESS_PKGS = {
 
 ADV_DEFAULTS = dict(MinDelay=6, MaxRADelay=1, InitCap=32, InitCount=3, MinIv=7, MaxIv=8, ChanCap=2, Retries=2,
                     BackoffUnit=1, UnicastOnly="FALSE", MonitorMode="FALSE", CfgLife=1800, Hosts='{"h1"}', Kinds="{}", MaxIn=2, MaxT=10,
-                    MaxFlips=0, MaxHolds=0, WriteFaults="FALSE", LinkFaults="FALSE", AllowCancel="TRUE", Sec=1, MaxQueries=0, MaxSessions=1)
+                    MaxFlips=0, MaxHolds=0, WriteFaults="FALSE", LinkFaults="FALSE", AllowCancel="TRUE", Sec=1, MaxQueries=0, MaxSessions=1, FwdFaults="FALSE")
 ADV_INVARIANTS = "Req TypeOK C08_Prompt C08_NothingRunsAfterReturn C09_Alive C10_NoHalfAlive C10_NoLeak"
 
 ENV_DEFAULTS = dict(Srcs='{"unspec"}', Kinds="{}", HoldDsts="{}", FailDsts="{}", Terms="{}", MaxFlips=0, MaxEv=3,
@@ -344,7 +344,7 @@ def conformance(tmp, out_files, tag, max_scen=400, budget_s=None):
         rs = lambda x: ((x + 500) // 1000) * 1000
         consts = dict(MinDelay=3000, MaxRADelay=500, InitCap=16000, InitCount=3, MinIv=rs(mn), MaxIv=rs(mx), ChanCap=16, Retries=5,
                       BackoffUnit=50, UnicastOnly="TRUE" if unicast else "FALSE", MonitorMode="TRUE" if monmode else "FALSE", CfgLife=cfglife, Hosts="{}", Kinds="{}", MaxIn=0, DebugK=0,
-                      MaxT=0, MaxFlips=0, MaxHolds=0, WriteFaults="TRUE", LinkFaults="TRUE", AllowCancel="TRUE", Sec=1000, MaxQueries=0, MaxSessions=4)
+                      MaxT=0, MaxFlips=0, MaxHolds=0, WriteFaults="TRUE", LinkFaults="TRUE", AllowCancel="TRUE", Sec=1000, MaxQueries=0, MaxSessions=4, FwdFaults="TRUE")
         for b in range(0, len(lst), 100):
             if budget_s is not None and time.time() - t_start > budget_s:
                 break
